@@ -1446,15 +1446,24 @@ func TestVerifGC(t *testing.T) {
 //	                     corrupt (index.json is not JSON; dir only - a healthy repository for mem);
 //	                     due = 1: modified since the previous tick, 0: long ago (the pass skips it)
 //	G name               add an old unreferenced blob to the repository
+//	T name               (healthy) delete the tag `latest` through repo.IndexRemove: the image stays as an untagged entry
+//	U name               (healthy) tag the image `latest` again through repo.IndexInsert
+//	                     after T and U the harness does NOT set the modification time of the repository any more: it is
+//	                     whatever the store made it ("just modified", so the next pass has to visit the repository)
 //	PASS                 run one store-wide pass (repeated from a snapshot of the whole store, so that several of Go's
 //	                     map iteration orders are seen); answer = error flag and the state of every repository:
-//	                     clean | dirty (unreferenced blob present) | gone (directory removed) | corrupt
+//	                     clean | dirty (unreferenced blob present) | gone (directory removed) | corrupt,
+//	                     followed by +i while the image manifest of a healthy repository is still there
 
 type vgcPassRepo struct {
 	name, kind string
 	due        bool
 	hasAge     bool          // R name kind a<ms>: the last modification lies `age` before the tick of the pass
 	age        time.Duration // (set immediately before every pass, so the arithmetic of the window is exact)
+	storeTime  bool          // after T / U: the modification time is left to the store
+	untagged   bool          // the image lost its tag (T) and did not get it back (U)
+	md         digest.Digest // digest of the image manifest (healthy)
+	mdSize     int64
 }
 
 // the tick interval every pass of the harness uses, and the window of the documented pass: a repository is visited
@@ -1473,19 +1482,21 @@ func (h *vgcPH) dueSpec(age time.Duration) bool {
 }
 
 type vgcPH struct {
-	kind   string
-	tmp    string
-	n      int
-	pol    vgcPolicy
-	conf   config.Config
-	st     Store
-	root   string
-	repos  []*vgcPassRepo
-	lineNo int
-	mon    *bufio.Writer
-	cov    map[string]int
-	logMu  sync.Mutex
-	order  []string
+	kind       string
+	tmp        string
+	n          int
+	pol        vgcPolicy
+	conf       config.Config
+	st         Store
+	root       string
+	repos      []*vgcPassRepo
+	lineNo     int
+	mon        *bufio.Writer
+	cov        map[string]int
+	logMu      sync.Mutex
+	order      []string
+	lastMd     digest.Digest
+	lastMdSize int64
 }
 
 // slog handler that records the order in which repositories start their collection
@@ -1619,6 +1630,7 @@ func (h *vgcPH) addRepo(name, kind string, due bool) error {
 			Annotations: map[string]string{types.AnnotRefName: "latest"}}); err != nil {
 			return err
 		}
+		h.lastMd, h.lastMdSize = md, int64(len(raw))
 		g, err := vgcPut(repo, append([]byte(name+" "), vgcGarbage...))
 		if err != nil {
 			return err
@@ -1658,7 +1670,8 @@ func (h *vgcPH) addRepo(name, kind string, due bool) error {
 		}
 		dr.timeMod = tm
 	}
-	h.repos = append(h.repos, &vgcPassRepo{name: name, kind: kind, due: due})
+	h.repos = append(h.repos, &vgcPassRepo{name: name, kind: kind, due: due, md: h.lastMd, mdSize: h.lastMdSize})
+	h.lastMd, h.lastMdSize = "", 0
 	return nil
 }
 
@@ -1674,7 +1687,33 @@ func (h *vgcPH) garbageDigest(name string) digest.Digest {
 	return digest.Canonical.FromBytes(append([]byte(name+" "), vgcGarbage...))
 }
 
+func (h *vgcPH) hasImage(pr *vgcPassRepo) bool {
+	if pr.md == "" {
+		return false
+	}
+	repo, err := h.repoOf(pr.name)
+	if err != nil {
+		return false
+	}
+	switch r := repo.(type) {
+	case *memRepo:
+		return r.blobs[pr.md] != nil
+	case *dirRepo:
+		_, err := os.Stat(filepath.Join(r.path, blobsDir, pr.md.Algorithm().String(), pr.md.Encoded()))
+		return err == nil
+	}
+	return false
+}
+
 func (h *vgcPH) repoState(pr *vgcPassRepo) string {
+	st := h.repoBase(pr)
+	if (st == "clean" || st == "dirty") && h.hasImage(pr) {
+		st += "+i"
+	}
+	return st
+}
+
+func (h *vgcPH) repoBase(pr *vgcPassRepo) string {
 	repo, err := h.repoOf(pr.name)
 	if err != nil {
 		return "error"
@@ -1798,11 +1837,10 @@ func (h *vgcPH) restore(sn map[string]*vgcRepoSnap, bak string) {
 	}
 }
 
-func (h *vgcPH) runPass() error {
-	cur := time.Now()
+func (h *vgcPH) runPass(cur time.Time) error {
 	prev := cur.Add(-vgcGap)
 	for _, pr := range h.repos {
-		if !pr.hasAge {
+		if !pr.hasAge || pr.storeTime {
 			continue
 		}
 		if repo, err := h.repoOf(pr.name); err == nil {
@@ -1827,6 +1865,7 @@ func (h *vgcPH) passOp() string {
 	sn, bak := h.snap()
 	answers := map[string]bool{}
 	last := ""
+	tick := time.Now() // one tick for all repetitions: what T / U did "just now" stays inside the window
 	for k := 0; k < reps; k++ {
 		if k > 0 {
 			h.restore(sn, bak)
@@ -1838,7 +1877,7 @@ func (h *vgcPH) passOp() string {
 		h.logMu.Lock()
 		h.order = nil
 		h.logMu.Unlock()
-		err := h.runPass()
+		err := h.runPass(tick)
 		h.cov["pass-runs"]++
 		h.logMu.Lock()
 		order := strings.Join(h.order, ",")
@@ -1853,7 +1892,11 @@ func (h *vgcPH) passOp() string {
 				failing = pr.name
 			}
 			// a healthy repository that is due and has something to collect must have been collected
-			if pr.due && pre[pr.name] == "dirty" && stt == "dirty" {
+			if pr.due && strings.HasPrefix(pre[pr.name], "dirty") && strings.HasPrefix(stt, "dirty") {
+				starved = pr.name
+			}
+			// … also when the something is its image: untagged collection on, tag deleted, blobs older than the grace period
+			if pr.due && h.pol.untagged && pr.untagged && strings.HasSuffix(pre[pr.name], "+i") && strings.HasSuffix(stt, "+i") {
 				starved = pr.name
 			}
 		}
@@ -1979,6 +2022,37 @@ func (h *vgcPH) apply(line string) string {
 			}
 		}
 		return "ok"
+	case "T", "U":
+		if len(t) != 2 {
+			return "bad-op"
+		}
+		for _, pr := range h.repos {
+			if pr.name != t[1] || pr.kind != "healthy" {
+				continue
+			}
+			repo, err := h.repoOf(pr.name)
+			if err != nil {
+				return "error " + err.Error()
+			}
+			if dr, ok := repo.(*dirRepo); ok && !dr.exists {
+				return "ok" // the repository was removed as empty; a push would start with an upload that re-creates it
+			}
+			desc := types.Descriptor{MediaType: types.MediaTypeOCI1Manifest, Digest: pr.md, Size: pr.mdSize,
+				Annotations: map[string]string{types.AnnotRefName: "latest"}}
+			if t[0] == "T" {
+				err = repo.IndexRemove(desc)
+			} else {
+				err = repo.IndexInsert(desc)
+			}
+			if err != nil {
+				return "error " + err.Error()
+			}
+			// from here on the store decides when the repository was last modified; by the documented behaviour
+			// it was modified just now, so the next pass has to visit it
+			pr.storeTime, pr.due, pr.untagged = true, true, t[0] == "T"
+			return "ok"
+		}
+		return "ok"
 	case "PASS":
 		return h.passOp()
 	}
@@ -2006,11 +2080,25 @@ func vgcGenPass(r *rand.Rand, c int, emit func(string)) {
 		}
 		emit(fmt.Sprintf("R %s %s %s", name, kind, due))
 	}
+	// index operations through the store API on repositories that may lie outside the window: the store has to put them
+	// back into it
+	if r.Intn(3) == 0 {
+		for _, nm := range names {
+			if r.Intn(2) == 0 {
+				emit("T " + nm)
+			}
+		}
+	}
 	emit("PASS")
 	if r.Intn(2) == 0 {
 		for _, nm := range names {
-			if r.Intn(2) == 0 {
+			switch r.Intn(5) {
+			case 0, 1:
 				emit("G " + nm)
+			case 2:
+				emit("T " + nm)
+			case 3:
+				emit("U " + nm)
 			}
 		}
 		emit("PASS")
